@@ -205,7 +205,7 @@ func (m *Machine) callFn(fn *ssa.Function, args []Value, env []Value, site ssa.I
 		m.unsupported("function without body: %s", name)
 	}
 	if m.merge != nil && !isScipipeFn(fn) {
-		panic(mergeAbort{"library source interpreted inside a merge scope"})
+		panic(mergeAbort{"library source interpreted inside a merge scope: " + name})
 	}
 	if !m.NoMerge && m.cur != nil && isScipipeFn(fn) && anySym(args) && mergeable(fn) && (m.merge != nil || hasLoop(fn)) {
 		if r, ok := m.mergedCall(fn, args, env); ok {
@@ -554,7 +554,7 @@ func (m *Machine) evalValue(fr *frame, v ssa.Value) Value {
 		if sb, ok := r.(*SymBytes); ok && !symBytesOnlyForModels(x) {
 			// []byte(s) of a symbolic string that the code indexes, slices, ranges over or
 			// hands to code without a model: a real slice of (symbolic) bytes of decided length
-			n := int(m.Concretize(sb.S.Len, false))
+			n := m.decideLen(sb.S)
 			sl := make(Slice, n)
 			for i := 0; i < n; i++ {
 				sl[i] = m.normScalar(sb.S.Ch[i])
@@ -1100,7 +1100,7 @@ func (m *Machine) rangeOver(fr *frame, x *ssa.Range) Value {
 		return &mapIter{str: b}
 	case *sym.Str:
 		// symbolic strings are ASCII: the length is decided, the runes stay symbolic
-		n := int(m.Concretize(b.Len, false))
+		n := m.decideLen(b)
 		return &mapIter{str: b, symN: n}
 	}
 	m.unsupported("range over %T", v)
